@@ -137,7 +137,7 @@ func runC06(c *Ctx, r *Run) {
 
 	// ---- OB-E2
 	{
-		gs := rejectGuards(chk)
+		gs := liftedGuards(chk, 0)
 		for _, qf := range queueFs {
 			qn := "recv." + st.Field(qf).Name()
 			found := false
@@ -157,9 +157,15 @@ func runC06(c *Ctx, r *Run) {
 				}
 				if hasQ && hasH {
 					found = true
-					for _, s := range g.iff.Block().Succs {
-						if blockReaches(s, g.iff.Block()) {
-							inLoop = true
+					loopIf := g.iff
+					if g.inner != nil {
+						loopIf = g.inner // the comparison sits in a helper's loop
+					}
+					if loopIf != nil {
+						for _, s := range loopIf.Block().Succs {
+							if blockReaches(s, loopIf.Block()) {
+								inLoop = true
+							}
 						}
 					}
 					// full-slice comparison: neither operand is a sub-slice
